@@ -74,7 +74,19 @@ PROPS["C02"] = {
     "partial": "float mean order (dyadic data)",
 }
 
+PROPS["C14"] = {
+    "gen": ["Range", "Merge"],
+    "trusted_base": ["astropy.io.fits header round trip of float values; np.nanmin/np.nanmax + isfinite guard give the finite range", "the order of callbacks (C01) and the pixel result of the cascade (C02)"],
+    "assumptions": COMMON_ASSUME + ["leaf values are finite or NaN (±inf excluded)", "averaging non-NaN data gives non-NaN data (a parent exists iff a child exists)"],
+    "partial": "",
+}
+
 LEVEL_TEXT = {
+    "C14": {
+        "text": "How the data range travels is re-extracted from the source each run (save: explicit range else the array's finite range; load: header -> data_min/max; merger: min of the children's mins / max of their maxes over children that exist and carry one; Builder copies the root's). Theorem, by induction over the tile tree with an arbitrary fallback for range-less children: every stored tile records exactly the min and max over all finite leaf values beneath it, and a tile is absent exactly when there are none (all-NaN leaves contribute nothing). Real FITS pyramids (sparse, NaN-laden, exact-zero extremes, leaves built by repeated update_image passes; serial and 3 workers) are cascaded and every header compared with the leaves' float32 range and with the model.",
+        "note": "trusted: Lean kernel; textual extraction of the plumbing; astropy FITS headers. Schedule independence is inherited from C02 (cascade_tree).",
+        "technique": "Lean 4 proof (structural induction over the pyramid) + header read-back",
+    },
     "C02": {
         "text": "Slice tables, table-per-parity choice and the callback's structure come from running/reading merge.py each run; per-pixel update semantics from image.py (C15). Theorems: closed form of the 512x512 mosaic for both tables; for both vertical parities the displayed parent pixel (i,j) is the block function of the displayed mosaic with child (2x+ix,2y+iy) in quadrant (iy,ix) and missing children undefined (flip and table row-halves cancel for row-swap-invariant mergers; the averaging merger is one); NaN iff all four NaN / floor mean of four stored values; parent exists iff some child exists and the merged tile is not completely masked; for every legal schedule (C01 order) every tile equals a function of the leaves only, and non-interfering callbacks commute, so serial and parallel results coincide. Real cascades (8 format/mode kinds, serial and 3 workers) are compared with an independent numpy statement of the property and with the Lean index map applied to the real child files.",
         "note": "trusted: Lean kernel; table/idiom extraction; numpy block-mean structure; dyadic test data for float exactness.",
